@@ -3,8 +3,16 @@ package main
 // grp engine: Groupby (single key / key list) and the grouped Sum/Mean/Count (C04, C05).
 
 import (
+	"time"
+
 	"github.com/kishyassin/goframe/dataframe"
 )
+
+// time keys that differ only below one second, and one instant in two zones
+func grpTimeKeys() []any {
+	b := time.Date(2024, 3, 5, 10, 20, 30, 0, utc)
+	return []any{b, b.Add(1), b.Add(500 * time.Millisecond), b.Add(time.Second), b.In(zonePlus), b.Add(999999999), nil}
+}
 
 var grpKeyAlpha = []any{1, int64(1), 1.0, "1", "x|y", "x", "y|z", "z", nil, "<nil>", true, "true", 2, "a", "b"}
 
@@ -13,6 +21,9 @@ func genGrp(r *Rng, tier string) *Enc {
 	n := r.SmallN()
 	if r.Chance(40) {
 		n = r.Range(4, 30)
+	}
+	if r.Intn(70) == 0 {
+		n = Pick(r, []int{513, 515, 1001, 2047}) // beyond plausible chunking / parallelisation thresholds, not a multiple of 4
 	}
 	df := dataframe.NewDataFrame()
 	nk := r.Range(1, 3)
@@ -24,6 +35,9 @@ func genGrp(r *Rng, tier string) *Enc {
 			alpha = grpKeyAlpha
 		}
 		alpha = alpha[:r.Range(2, len(alpha))]
+		if r.Chance(8) {
+			alpha = grpTimeKeys()
+		}
 		d := make([]any, n)
 		for i := range d {
 			d[i] = Pick(r, alpha)
@@ -31,6 +45,9 @@ func genGrp(r *Rng, tier string) *Enc {
 		df.Columns[kn] = &dataframe.Column[any]{Name: kn, Data: d}
 	}
 	vnames := []string{"v", "w", "u"}[:r.Range(0, 3)]
+	if r.Chance(10) {
+		vnames = []string{" v", "w ", "u"}[:r.Range(1, 3)] // names with edge white space (a CSV header "k, v" produces them)
+	}
 	for ci, vn := range vnames {
 		d := make([]any, n)
 		if r.Chance(12) {
@@ -156,6 +173,9 @@ func genGrp(r *Rng, tier string) *Enc {
 	e.Tok("REAGG")
 	if status == "ok" && len(allCols) > 0 {
 		cols := []string{allCols[0]}
+		if r.Bool() {
+			cols = nil // the argument-less form, twice
+		}
 		var first, second *dataframe.DataFrame
 		st1, _ := guard(func() error { var err error; first, err = g.Sum(cols...); return err })
 		e.Tok(st1)
